@@ -255,6 +255,13 @@ def gen_search(rng, m, vocab, base, simple=False, allow_last=False, allow_filter
         if r < p_star:
             out[i] = "*"
             feats.add("star")
+        elif (not simple and "_" in segs[i].strip("_") and rng.random() < 0.3
+              and m.vocab(tn, t.keys[i])[0] == "free"):
+            # near-miss pair: the value and the value cut at the filename separator, in either order
+            pair = [segs[i], segs[i].rsplit("_", 1)[0]]
+            rng.shuffle(pair)
+            out[i] = ",".join(pair)
+            feats.add("comma_near_miss")
         elif not simple and r < p_star + 0.12:
             vals = [v for v in (vocab.values(tn, t.keys[i]) or []) if v != segs[i]]
             if vals:
